@@ -320,6 +320,13 @@ def call_parse(case):
         if via == "instance":
             from dateparser.conf import settings as _defaults
             st = _defaults.replace(**st)
+        elif via == "instance2":
+            # a long-lived base configuration refined per call: settings.replace(<preferences>).replace(RELATIVE_BASE=...)
+            from dateparser.conf import settings as _defaults
+            late = {k: v for k, v in st.items() if k in ("RELATIVE_BASE", "TIMEZONE", "TO_TIMEZONE")}
+            early = {k: v for k, v in st.items() if k not in late}
+            st = _defaults.replace(**early) if early else _defaults
+            st = st.replace(**late) if late else st
         if case.get("api", "ddp") == "parse":
             d = dateparser.parse(case["s"], settings=st, **kw)
             res["out"] = dt_to_list(d)
@@ -329,6 +336,16 @@ def call_parse(case):
             p = DateDataParser(settings=st, **kw)
             if via == "cleared":
                 st.clear()
+            # the parser object handed on as a copy (to a worker process, into a pool): the copy is used
+            if case.get("copy") == "pickle":
+                import pickle as _pk
+                p = _pk.loads(_pk.dumps(p))
+            elif case.get("copy") == "deepcopy":
+                import copy as _cp
+                p = _cp.deepcopy(p)
+            elif case.get("copy") == "copy":
+                import copy as _cp
+                p = _cp.copy(p)
             dd = p.get_date_data(case["s"], fmts)
             d = dd["date_obj"]
             res["out"] = dt_to_list(d)
